@@ -32,7 +32,8 @@ func TestCheck(t *testing.T) {
 	cfg := mon.Load(ID)
 	rep := mon.NewReporter(cfg, "exploration",
 		"(a) generated graph/DAG/workflow/chain specs in which every node natively implements a PRNG-chosen non-empty subset of {Invoke,Stream,Collect,Transform}, splits its output into PRNG chunkings (single chunk, empty leading chunks, keys spread over chunks, array-backed or Pipe(cap 0/1/3)+goroutine producers, lazy transforms), with fan-out copies, fan-in merges, stream and value branch conditions, (stream) state handlers, input/output keys, workflow field mappings and nested graphs. Metamorphic oracle: for one compiled object and one logical input all four paradigms, under 2-4 input chunkings, must give the value of the reference interpreter (outputs concatenated by the harness's own concatenator); an injected node failure on the data path to END (error returned / error item mid-stream) must fail the run in all four paradigms; no panic on the caller, no hang (quiescence monitor). Non-trivial: >=2 bodies executed and >=2 different native paradigm sets among the executed nodes; distinct = (spec, input) digests. "+
-			"(b) typed sub-workload written against eino's public API: series-parallel programs (Graph in both trigger modes, Chain, Workflow, nested up to 2 deep) whose nodes are declared over string / any / a named interface / *struct / struct / map[string]any, produce untyped nils, typed nil pointers, nil maps and maps holding nil, sit behind input/output keys, run-time checked edges, value and stream branch conditions, fan-ins and field mappings (whole<->field, struct and map sources); the generator grows a program along the reference evaluation of its input, so that well-typed continuations, continuations that must fail everywhere, and the known-undefined situations (two fan-in predecessors with one key, fan-in of any-typed map outputs, an input key or mapped source key that never shows up) are all produced. Also generated inside these programs: identity nodes whose Transform form is schema.StreamReaderWithConvert with a convert function that panics / fails on the chunk holding a PRNG-chosen byte or key (the run must fail in every paradigm, never panic on the caller); pipelines around the framework's own lambdas (compose.ToList over every type of the universe and over *schema.Message, compose.MessageParser with JSON text cut over message chunks) behind multi-chunk producers and in front of consumers of every paradigm set; workflow branches that select one of several consumers reading the same output over data-only (field-mapped) inputs, and type-switch branches in graphs and chains, where the siblings that are not selected would not pass the checks of their edge. Oracle: reference value in every paradigm / a failure in every paradigm / (undefined) agreement of the four paradigms; never a panic on the caller's goroutine or a hang. Non-trivial: >=2 lambda nodes, >=2 declared types, >=2 native paradigm sets or a nested program.",
+			"(b) typed sub-workload written against eino's public API: series-parallel programs (Graph in both trigger modes, Chain, Workflow, nested up to 2 deep) whose nodes are declared over string / any / a named interface / *struct / struct / map[string]any, produce untyped nils, typed nil pointers, nil maps and maps holding nil, sit behind input/output keys, run-time checked edges, value and stream branch conditions, fan-ins and field mappings (whole<->field, struct and map sources); the generator grows a program along the reference evaluation of its input, so that well-typed continuations, continuations that must fail everywhere, and the known-undefined situations (two fan-in predecessors with one key, fan-in of any-typed map outputs, an input key or mapped source key that never shows up) are all produced. Also generated inside these programs: identity nodes whose Transform form is schema.StreamReaderWithConvert with a convert function that panics / fails on the chunk holding a PRNG-chosen byte or key (the run must fail in every paradigm, never panic on the caller); pipelines around the framework's own lambdas (compose.ToList over every type of the universe and over *schema.Message, compose.MessageParser with JSON text cut over message chunks) behind multi-chunk producers and in front of consumers of every paradigm set; workflow branches that select one of several consumers reading the same output over data-only (field-mapped) inputs, and type-switch branches in graphs and chains, where the siblings that are not selected would not pass the checks of their edge. Oracle: reference value in every paradigm / a failure in every paradigm / (undefined) agreement of the four paradigms; never a panic on the caller's goroutine or a hang. Non-trivial: >=2 lambda nodes, >=2 declared types, >=2 native paradigm sets or a nested program. "+
+			"(c) nil-chunk sub-workload: a source declared any / a named interface (or map[string]any in front of WithInputKey) - a natively streaming node, or the caller of Collect / Transform - delivers the pieces of one real value (string pieces, map chunks, one pointer / struct chunk next to zero chunks) with 0-3 untyped nil chunks (nil values below the key) in front of, between and behind them, or nothing but nil chunks, or real chunks of a type that does not fit; behind it a run-time checked edge into a lambda / nested graph / END / the two consumers of a fan-out declared over string, *struct, struct, map, a named interface or any, a pass-through node in between, a value or stream branch condition declared over a type, or WithInputKey, in Graph (both trigger modes), Chain and Workflow. Oracle: the stream is its concatenation - if the concatenated value fits the declared type(s) all four paradigms deliver consumer(value), otherwise all four fail. Non-trivial: >=2 source chunks.",
 		[]string{"node functions are homomorphic w.r.t. chunk concatenation where a lazy transform is used, so agreement is a theorem of the spec", "gspec workload: absent input keys, zero-chunk streams and colliding-key merges in stream form are not generated / not compared (the statement does not define them); the typed sub-workload generates them and demands only that the four paradigms agree", "typed sub-workload: only strings and maps declared as such are cut into several non-empty chunks; other declared types come as one chunk (an untyped nil possibly as several nil chunks); struct-typed mapping targets are only fed by single-chunk sources (the concatenation of partial structs is the C15 finding stream-struct-fan-in)"},
 		150)
 	defer func() {
@@ -50,13 +51,10 @@ func TestCheck(t *testing.T) {
 	}
 	n := int64(cfg.Pick(300, 400))
 	nTyped := int64(cfg.Pick(500, 2000))
-	nNil := int64(cfg.Pick(240, 1200))
+	nNil := int64(cfg.Pick(200, 1000))
 	rep.Require("nilchunk_cases", 50)
-	rep.Require("nilmapped_cases", 25)
 	rep.Require("nilchunk_kind_nil-next-to-real-chunks", 20)
 	rep.Require("nilchunk_kind_only-nil-chunks", 5)
-	rep.Require("nilmapped_gap_"+nmMarkPath, 5)
-	rep.Require("nilmapped_gap_"+nmMarkValue, 2)
 	rep.Cases(n+nTyped+nNil, func(idx int64, rng *mon.Rand) {
 		if idx < n+nTyped && os.Getenv("C04_NIL_ONLY") != "" {
 			return // debugging aid: only the nil-chunk sub-workloads
@@ -65,14 +63,8 @@ func TestCheck(t *testing.T) {
 			return // debugging aid: skip the gspec workload
 		}
 		if idx >= n+nTyped {
-			// nil chunks next to real chunks in front of the run-time type checks (nilchunk_test.go),
-			// field mappings over source chunks with a nil on the mapped path (nilmapped_test.go)
-			k := idx - n - nTyped
-			if k%3 == 2 {
-				nilMappedCase(ctx, rep, rng, cfg, k < 6)
-			} else {
-				nilChunkCase(ctx, rep, rng, cfg, k < 6)
-			}
+			// nil chunks next to real chunks in front of the run-time type checks (nilchunk_test.go)
+			nilChunkCase(ctx, rep, rng, cfg, idx < n+nTyped+3)
 			return
 		}
 		if idx >= n {
